@@ -2,6 +2,7 @@ package agent
 
 import (
 	"context"
+	"errors"
 	"encoding/json"
 	"fmt"
 	"sort"
@@ -29,23 +30,29 @@ import (
 type vpC39Call struct {
 	from, to string
 	got      string // agent id in the answer ("" = none)
+	failure  string // text of a failure response
 	err      error
 	id       uint64
 }
 
-func vpC39Status(a *Agent, target *Agent, d time.Duration) (string, error) {
+// vpC39Status asks target for its status. It returns the responding agent's id, or the
+// text of a failure response (Success=false), or an error (no response in time).
+func vpC39Status(a *Agent, target *Agent, d time.Duration) (id string, failure string, err error) {
 	ctx, cancel := context.WithTimeout(context.Background(), d)
 	defer cancel()
 	resp, err := a.SendControlRequest(ctx, target.ID(), protocol.ControlTypeStatus)
 	if err != nil {
-		return "", err
+		return "", "", err
+	}
+	if !resp.Success {
+		return "", "failure response: " + string(resp.Data), nil
 	}
 	var m map[string]any
 	if err := json.Unmarshal(resp.Data, &m); err != nil {
-		return "", fmt.Errorf("answer is not a status document (success=%v): %q", resp.Success, resp.Data)
+		return "", "", fmt.Errorf("answer is not a status document: %q", resp.Data)
 	}
-	id, _ := m["agent_id"].(string)
-	return id, nil
+	id, _ = m["agent_id"].(string)
+	return id, "", nil
 }
 
 func TestVP_C39_Control(t *testing.T) {
@@ -103,6 +110,12 @@ func TestVP_C39_Control(t *testing.T) {
 					tFwd = true
 				}
 			}
+			// fault injection: the transit's writes towards X1 fail while X1 stays registered
+			halfDead := rapid.IntRange(0, 3).Draw(rt, "halfDeadLinkToX1") == 0
+			if halfDead {
+				m.links["T>X1"].FailWrites(true, true)
+				nt = true
+			}
 			var wg sync.WaitGroup
 			start := make(chan struct{})
 			for _, c := range calls {
@@ -110,7 +123,7 @@ func TestVP_C39_Control(t *testing.T) {
 				go func(c *vpC39Call) {
 					defer wg.Done()
 					<-start
-					c.got, c.err = vpC39Status(m.agents[c.from], m.agents[c.to], 6*time.Second)
+					c.got, c.failure, c.err = vpC39Status(m.agents[c.from], m.agents[c.to], 6*time.Second)
 				}(c)
 			}
 			// predicted ids (each requester numbers its calls consecutively)
@@ -137,22 +150,42 @@ func TestVP_C39_Control(t *testing.T) {
 			}
 			close(start)
 			wg.Wait()
+			if halfDead {
+				m.links["T>X1"].FailWrites(true, false)
+			}
 			var desc []string
 			for _, c := range calls {
 				desc = append(desc, fmt.Sprintf("%s->%s", c.from, c.to))
 			}
 			sort.Strings(desc)
-			hist = append(hist, fmt.Sprintf("batch[%s]", strings.Join(desc, " ")))
+			hist = append(hist, fmt.Sprintf("batch[%s halfDeadT>X1=%v]", strings.Join(desc, " "), halfDead))
 			for _, c := range calls {
 				want := m.agents[c.to].ID().String()
+				if halfDead && c.to == "X1" {
+					// the transit cannot forward: the caller must be told so (a failure response),
+					// not left waiting, and nobody else may receive that report
+					if c.err != nil && !errors.Is(c.err, context.DeadlineExceeded) {
+						continue // refused at once at the sender (the transit's own request): the caller knows
+					}
+					if c.err != nil {
+						rt.Fatalf("VPFAIL C39 the request %s->X1 got no answer (%v) although the transit could not forward it and reports such failures: the failure report went elsewhere or was dropped\n  history: %s", c.from, c.err, strings.Join(hist, "; "))
+					}
+					if c.failure == "" {
+						rt.Fatalf("VPFAIL C39 the request %s->X1 was answered by %s although the transit's link to X1 refused every write\n  history: %s", c.from, m.nameOfString(c.got), strings.Join(hist, "; "))
+					}
+					continue
+				}
+				if c.err == nil && c.failure != "" {
+					rt.Fatalf("VPFAIL C39 %s asked %s for its status and received a failure report that belongs to another request (%s)\n  history: %s", c.from, c.to, c.failure, strings.Join(hist, "; "))
+				}
 				if c.err == nil && c.got != want {
 					rt.Fatalf("VPFAIL C39 %s asked %s for its status and received the answer of %s\n  history: %s", c.from, c.to, m.nameOfString(c.got), strings.Join(hist, "; "))
 				}
 			}
 			for _, c := range calls {
-				if c.err != nil {
+				if c.err != nil && !(halfDead && c.to == "X1") {
 					// was the mesh simply slow, or did the answer go elsewhere?
-					got, err := vpC39Status(m.agents[c.from], m.agents[c.to], 3*time.Second)
+					got, _, err := vpC39Status(m.agents[c.from], m.agents[c.to], 3*time.Second)
 					if err == nil && got == m.agents[c.to].ID().String() {
 						rt.Fatalf("VPFAIL C39 the request %s->%s got no answer within 6 s (%v) while the same request alone is answered at once: its answer was delivered to somebody else or dropped\n  history: %s", c.from, c.to, c.err, strings.Join(hist, "; "))
 					}
@@ -209,7 +242,7 @@ func TestVPKnown_C39_collision(t *testing.T) {
 			wg.Add(1)
 			go func(i int, p [2]string) {
 				defer wg.Done()
-				res[i], errs[i] = vpC39Status(m.agents[p[0]], m.agents[p[1]], 4*time.Second)
+				res[i], _, errs[i] = vpC39Status(m.agents[p[0]], m.agents[p[1]], 4*time.Second)
 			}(i, p)
 		}
 		wg.Wait()
